@@ -87,6 +87,44 @@ fn flip_one<B: Backend>(sum: &mut Summary, bk: &str, is_str: bool, join: bool, s
     }
 }
 
+/// the separator of join / join_slices is an `impl AsRef` too: one that answers differently from call to call
+fn flip_sep<B: Backend>(sum: &mut Summary, bk: &str, is_str: bool, slices_form: bool, pieces: &[Vec<u8>], seps: &[Vec<u8>]) {
+    sum.evaluations += 1;
+    let secret: u8 = if is_str { b'#' } else { 0xEE };
+    let vars = std::rc::Rc::new(seps.iter().map(|v| { let mut b = v.clone(); b.extend(std::iter::repeat(secret).take(64)); (b, v.len()) }).collect::<Vec<_>>());
+    let handed = std::rc::Rc::new(std::cell::RefCell::new(Vec::new()));
+    let sep = Flip { vars, calls: std::rc::Rc::new(std::cell::Cell::new(0)), handed: handed.clone() };
+    let errs_before = crate::alloc::snap().errors;
+    let r: Result<Vec<u8>, String> = quiet_catch(AssertUnwindSafe(|| {
+        let refs: Vec<&[u8]> = pieces.iter().map(|p| &p[..]).collect();
+        if is_str {
+            let strs: Vec<&str> = pieces.iter().map(|p| std::str::from_utf8(p).unwrap()).collect();
+            let h: HipStr<'static, B> = HipStr::join(strs.iter().copied(), sep);   // (HipStr::join_slices takes a plain &str separator)
+            h.verif_bytes().as_slice().to_vec()
+        } else {
+            let h: HipByt<'static, B> = if slices_form { HipByt::join_slices(&refs, sep) } else { HipByt::join(refs.iter().copied(), sep) };
+            h.as_slice().to_vec()
+        }
+    }));
+    let desc = format!("{} with a SEPARATOR whose AsRef changes its answer from call to call ty={} bk={} pieces={:?} separator answers={:?} prof={}", if slices_form { "join_slices" } else { "join" },
+        if is_str { "str" } else { "byt" }, bk, pieces.iter().map(|p| hex(p)).collect::<Vec<_>>(), seps.iter().map(|p| hex(p)).collect::<Vec<_>>(), profile());
+    if crate::alloc::snap().errors != errs_before { sum.violation(format!("{{\"what\":{},\"observed\":{},\"expected\":\"no write outside the destination block\"}}", jstr(&desc), jstr(&format!("the allocator monitor reports {}", crate::alloc::error_detail())))); }
+    if let Ok(bytes) = r {
+        // acceptable: the pieces joined by ONE of the answers the separator gave (each gap may use a different answer)
+        let answers: Vec<Vec<u8>> = handed.borrow().clone();
+        fn ok(out: &[u8], pieces: &[Vec<u8>], i: usize, answers: &[Vec<u8>]) -> bool {
+            if !out.starts_with(&pieces[i]) { return false; }
+            let rest = &out[pieces[i].len()..];
+            if i + 1 == pieces.len() { return rest.is_empty(); }
+            answers.iter().any(|a| rest.starts_with(a) && ok(&rest[a.len()..], pieces, i + 1, answers))
+        }
+        let fine = if pieces.is_empty() { bytes.is_empty() } else { ok(&bytes, pieces, 0, &answers) };
+        if is_str && std::str::from_utf8(&bytes).is_err() { sum.violation(format!("{{\"what\":{},\"observed\":{},\"expected\":\"panic or well-formed UTF-8\"}}", jstr(&desc), jstr(&format!("HipStr holding ill-formed UTF-8 {}", hex(&bytes))))); }
+        else if !fine { sum.violation(format!("{{\"what\":{},\"observed\":{},\"expected\":\"panic, or the pieces joined by answers the separator really gave\"}}", jstr(&desc), jstr(&format!("Ok({}){}", hex(&bytes), if bytes.contains(&secret) { " (it contains bytes the caller never exposed)" } else { "" })))); }
+        sum.count("flipsep.ok");
+    } else { sum.count("flipsep.panic"); }
+}
+
 fn pieces_coq(ps: &[Vec<u8>]) -> String { format!("[{}]", ps.iter().map(|p| coq_bytes(p)).collect::<Vec<_>>().join("; ")) }
 
 fn one<B: Backend>(sum: &mut Summary, w: &mut CaseWriter, seen: &mut std::collections::HashSet<String>, bk: &str, is_str: bool, join: bool, first: &[Vec<u8>], second: &[Vec<u8>], sep: &[u8]) {
@@ -196,6 +234,13 @@ fn drive<B: Backend>(sum: &mut Summary, w: &mut CaseWriter, seen: &mut std::coll
             let join = rng.chance(1, 2);
             let sep = if join { rng.pick(&seps).clone() } else { vec![] };
             flip_one::<B>(sum, bk, is_str, join, rng.chance(1, 2), &items, &sep);
+        }
+        for _ in 0..(n_flip / 4) {
+            let n_items = 2 + rng.below(3);
+            let pieces: Vec<Vec<u8>> = (0..n_items).map(|_| rng.pick(&words).clone()).collect();
+            let k = 1 + rng.below(3);
+            let seps_: Vec<Vec<u8>> = (0..k).map(|_| if is_str { rng.pick(&[&b"--"[..], b"!", b"", "\u{e9}".as_bytes(), b", "]).to_vec() } else { rng.pick(&[&b"--"[..], b"!", b"", b"\x00\x01\x02", b", "]).to_vec() }).collect();
+            flip_sep::<B>(sum, bk, is_str, rng.chance(1, 2), &pieces, &seps_);
         }
     }
 }
